@@ -688,24 +688,49 @@ def pinned_expected(case, pats, is_case, is_re, fast, defects):
     return sorted(out)
 
 
-DEFECT_SETS = [
-    (("nocase",), lambda fn: SIG_NOCASE),
-    (("ident",), lambda fn: SIG_IDENT),
-    (("nonunique",), lambda fn: SIG_NONUNIQUE),
-    (("absrepeat",), sig_abs_repeat),
-    (("absrepeat", "multiroot"), sig_multi_root),
-    (("absrepeat", "multiroot", "forcegate"), sig_multi_root),
-]
+ATOMS = ["nocase", "ident", "nonunique", "absrepeat", "multiroot", "multiroot+forcegate", "hignore"]
+
+
+def atom_sig(a, fn):
+    return {"nocase": SIG_NOCASE, "ident": SIG_IDENT, "nonunique": SIG_NONUNIQUE, "absrepeat": sig_abs_repeat(fn),
+            "multiroot": sig_multi_root(fn), "multiroot+forcegate": sig_multi_root(fn), "hignore": SIG_HIGNORE % fn}[a]
 
 
 def classify(case, pats, is_case, is_re, fast, got):
-    """signature of the single known defect class that explains `got` exactly, else None"""
-    for ds, sg in DEFECT_SETS:
-        try:
-            if pinned_expected(case, pats, is_case, is_re, fast, set(ds)) == sorted(got):
-                return sg(case.fn)
-        except Exception:
-            continue
+    """signatures of the smallest set of known defect classes that explains `got` exactly, else None"""
+    import itertools
+    if case.variant == "h":
+        atoms = ["hignore", "nocase"] if case.bypass else ["nocase"]
+    elif case.variant == "pipeline":
+        atoms = ["nocase", "ident", "nonunique"]
+        if case.fn in ("get_instances", "get_libraries", "get_definitions"):
+            atoms.append("absrepeat")
+        if case.fn in ("get_instances", "get_libraries"):
+            atoms += ["multiroot", "multiroot+forcegate"]
+    else:
+        atoms = ["nocase"]
+    got = sorted(got)
+    for n in (1, 2, 3):
+        for sub in itertools.combinations(atoms, n):
+            if "multiroot" in sub and "multiroot+forcegate" in sub:
+                continue
+            ds = set()
+            for a in sub:
+                ds.update(a.split("+"))
+            if "multiroot" in ds:
+                ds.add("absrepeat")
+            try:
+                if pinned_expected(case, pats, is_case, is_re, fast, ds) == got:
+                    sigs = []
+                    for a in sub:
+                        if a == "absrepeat" and "multiroot" in ds:
+                            continue
+                        sg = atom_sig(a, case.fn)
+                        if sg not in sigs:
+                            sigs.append(sg)
+                    return sigs
+            except Exception:
+                continue
     return None
 
 
@@ -725,26 +750,23 @@ class Runner:
         return st, (sorted(got) if st == "ok" else got), sorted(ans["out"]), sorted(ans["spec"]), ans["hyp"]
 
     def check(self, case, pats, is_case, is_re, fast, filt, report=True):
-        """full check of one query. Returns None if fine, else (kind, signature, detail)."""
+        """full check of one query. Returns None if fine, else (kind, [signatures], detail)."""
         st, got, out, spec, hyp = self.query(case, pats, is_case, is_re, fast, filt)
         if st != "ok":
-            return ("raise", "%s.raises_%s" % (case.fn, got), {"raised": got, "model": out})
+            return ("raise", ["%s.raises_%s" % (case.fn, got)], {"raised": got, "model": out})
+        self.res.dist("hyp:%s" % hyp)
         bad = None
         if got != spec or len(got) != len(set(got)):
-            sig = classify(case, pats, is_case, is_re, fast, got) if filt == "none" else None
-            if sig is None and case.variant == "h" and case.bypass and got == out:
-                # the model follows the code: elements reached through these root kinds are yielded
-                # before any name search, the patterns are never applied to them
-                sig = SIG_HIGNORE % case.fn
-            if sig is None and filt != "none":
+            sigs = classify(case, pats, is_case, is_re, fast, got) if filt == "none" else None
+            if sigs is None and filt != "none":
                 # classify on the unfiltered query
                 st2, got2, out2, spec2, _ = self.query(case, pats, is_case, is_re, fast, "none")
-                if st2 == "ok" and got2 != spec2:
-                    sig = classify(case, pats, is_case, is_re, fast, got2)
-            if sig is None:
-                sig = ("%s.duplicate" % case.fn) if len(got) != len(set(got)) and sorted(set(got)) == spec \
-                    else "%s.filter_mismatch" % case.fn
-            bad = ("spec", sig, {"impl": got, "spec": spec, "model": out})
+                if st2 == "ok" and (got2 != spec2 or len(got2) != len(set(got2))):
+                    sigs = classify(case, pats, is_case, is_re, fast, got2)
+            if sigs is None:
+                sigs = [("%s.duplicate" % case.fn) if len(got) != len(set(got)) and sorted(set(got)) == spec
+                        else "%s.filter_mismatch" % case.fn]
+            bad = ("spec", sigs, {"impl": got, "spec": spec, "model": out})
         if got != out:
             if bad is None:
                 return ("corr", None, {"impl": got, "model": out, "spec": spec})
@@ -1024,13 +1046,15 @@ def report(res, runner, w, kind, sig, x, detail, do_shrink=True):
                 x = shrink(runner, w, x, sig, kind)
             except Exception:
                 pass
-        res.spec_failure(sig, x, json.dumps(detail)[:600])
+        for sg in sig:
+            res.spec_failure(sg, x, json.dumps(detail)[:600])
         if kind == "spec+corr":
-            res.corr_mismatch("stage correspondence (" + x["fn"] + ")", x, detail.get("impl"), detail.get("model"), signature=sig)
+            # ignored only while every explaining finding is open: attribute it to the first one
+            res.corr_mismatch("stage correspondence (" + x["fn"] + ")", x, detail.get("impl"), detail.get("model"), signature=sig[0])
     elif kind == "corr":
         res.corr_mismatch("stage correspondence (" + x["fn"] + ")", x, detail.get("impl"), detail.get("model"))
     elif kind == "meta":
-        res.spec_failure(sig, x, json.dumps(detail)[:600])
+        res.spec_failure(sig[0], x, json.dumps(detail)[:600])
 
 
 def shard_worker(seed, tier, si, nshards, budget_s, net_specs, per_net):
@@ -1073,13 +1097,15 @@ def shard_worker(seed, tier, si, nshards, budget_s, net_specs, per_net):
                 if case.variant == "pipeline":
                     res.dist("pipeline:%s%s" % ("direct" if case.groups else "", "+other" if case.others else ""))
                 if case.base_dups:
-                    sig = classify(case, ["*"], True, False, True, case.base) or "%s.duplicate" % case.fn
+                    sig = classify(case, ["*"], True, False, True, case.base) or ["%s.duplicate" % case.fn]
                     xi = input_of(case, ["*"], True, False, True, "none")
-                    if sig not in reported:
-                        reported.add(sig)
+                    xi["net"] = ns
+                    if ("spec", tuple(sig)) not in reported:
+                        reported.add(("spec", tuple(sig)))
                         report(res, runner, w, "spec", sig, xi, {"impl": sorted(case.base)})
                     else:
-                        res.spec_failure(sig, xi, "")
+                        for sg in sig:
+                            res.spec_failure(sg, xi, "")
                 if case.fn in NOPAT_FNS:
                     combos = [(["*"], True, False, "nopattern")]
                 else:
@@ -1102,11 +1128,12 @@ def shard_worker(seed, tier, si, nshards, budget_s, net_specs, per_net):
                     if r is not None:
                         kind, sig, detail = r
                         x["net"] = ns
-                        key = (kind, sig)
+                        key = (kind.split("+")[0], tuple(sig or ()))
                         if key in reported and kind != "corr":
-                            res.spec_failure(sig, x, "")
+                            for sg in sig:
+                                res.spec_failure(sg, x, "")
                             if kind == "spec+corr":
-                                res.corr_mismatch("stage correspondence (" + x["fn"] + ")", x, signature=sig)
+                                res.corr_mismatch("stage correspondence (" + x["fn"] + ")", x, signature=sig[0])
                         else:
                             reported.add(key)
                             report(res, runner, w, kind, sig, x, detail)
@@ -1130,14 +1157,15 @@ def shard_worker(seed, tier, si, nshards, budget_s, net_specs, per_net):
                             if c2 is not None:
                                 explained = True
                                 kind, sig, det = c2
-                                key = (kind, sig)
+                                key = (kind.split("+")[0], tuple(sig or ()))
                                 if key in reported and kind != "corr":
-                                    res.spec_failure(sig, xi, "")
+                                    for sg in sig:
+                                        res.spec_failure(sg, xi, "")
                                 else:
                                     reported.add(key)
                                     report(res, runner, w, kind, sig, xi, det)
                         if not explained:
-                            report(res, runner, w, "meta", "%s.metamorphic.%s" % (case.fn, rel), xis[0], detail)
+                            report(res, runner, w, "meta", ["%s.metamorphic.%s" % (case.fn, rel)], xis[0], detail)
     finally:
         drv.close()
     return res
@@ -1153,8 +1181,8 @@ def replay_input(ctx, runner, res, x):
         return
     res.case(stable_hash(x), True)
     if case.base_dups:
-        sig = classify(case, ["*"], True, False, True, case.base) or "%s.duplicate" % case.fn
-        res.spec_failure(sig, x, "base query returns an element twice")
+        for sg in (classify(case, ["*"], True, False, True, case.base) or ["%s.duplicate" % case.fn]):
+            res.spec_failure(sg, x, "base query returns an element twice")
     r = runner.check(case, x["pats"], x["is_case"], x["is_re"], x["fast"], x.get("filter", "none"))
     if r is not None:
         kind, sig, detail = r
